@@ -129,6 +129,7 @@ class History:
         if world is None:
             world = gen.World(rng)
             world.bad_key_prob = 0.1
+            world.odd_reward_prob = rng.choice([0.0, 0.25])
             world.grow(rng.choice([6, 10, 16]), rng, tx_prob=0.7)
         self.world = world
         self.path = os.path.join(os.getcwd(), "node-%s.db" % idx)
